@@ -91,6 +91,22 @@ fn drive_and_judge(target: &str, mut b: Built, sched: &[Step], feed: Sz, out: &m
             format!("{name} stopped producing after {} work() calls without ever returning EOF (last verdicts: {:?})", log.ncalls, log.calls.iter().rev().take(3).map(|c| format!("{:?}", c.verdict)).collect::<Vec<_>>()),
         ));
     }
+    // a block whose inputs have ended and are drained must let a runner retire it (EOF, a wait
+    // on an ended input, or eof()): one that keeps asking to be called for something else
+    // never finishes under the multithreaded runner
+    if !is_source && !log.step_budget_hit && log.panic.is_none() && log.error.is_none() && log.calls_after_close > 0 && log.eof_at.is_none() {
+        let named_closed = log.calls.iter().rev().take(3).any(|c| c.named.map(|n| n.2).unwrap_or(false));
+        if !named_closed && !log.block_eof {
+            out.push((
+                format!("C15/{target}/never-retires/{name}"),
+                format!(
+                    "{name}: input ended and drained {} calls ago, but the block neither returned EOF nor waits on the ended input nor reports eof() (last verdicts: {:?})",
+                    log.calls_after_close,
+                    log.calls.iter().rev().take(3).map(|c| format!("{:?}", c.verdict)).collect::<Vec<_>>()
+                ),
+            ));
+        }
+    }
     if log.step_budget_hit {
         out.push((
             format!("C15/{target}/no-quiescence/{name}"),
